@@ -57,3 +57,10 @@ claim("C11", "other", "finite-model evaluation of dominating guards (membership,
       "after an equal cast; include expansion only for matching arity/keywords; and no handler on the load path absorbs an exception.",
       "Trusted: library model of isinstance relations and of silent/raising casts (validated against the installed libraries in the thorough tier). Guards outside the evaluator's operator set are inconclusive.",
       "DESIGN.md 5/C11")
+
+claim("C06", "other", "typestate of the deferral flag over enter/exit handlers, finite-model guard evaluation, structural replay-order and header checks against the grammar, effect evaluation of the scope clean-up on a 3-element table model",
+      "Decides: deferral (flag set on enter, reset first in exit, early return iff parent is a loop and flag set, on all four models); replay order (values outer, statement_list inner, exitStatement per statement, binding before replay); "
+      "header evaluation (range from the INT children in order; every `val` alternative of the grammar handled in child order); binding only after an equal cast with the declared constructor; "
+      "loop variable removed on every normal exit including zero iterations and falsy last values.",
+      "Not decided: evaluation of the body statements themselves (C02/C03). Trusted: walker event order.",
+      "DESIGN.md 5/C06")
